@@ -13,7 +13,9 @@ NOMACRO = ['-U__BYTE_ORDER__', '-U__ORDER_LITTLE_ENDIAN__', '-U__ORDER_BIG_ENDIA
 def build(b, gdir, nobjs, name, opt='-O1'):
     wdir = os.path.join(b, 'world-llp64' + opt)
     bo = os.path.join(core.ROOT, 'world', 'wrap_bo.c')
-    objs = c14.be_objects(wdir, gdir, opt, 'x86_64-w64-windows-gnu', True, extra_jobs=[(bo, 'wrap_bo3', ['-DW_BO=w_bo3'] + NOMACRO)], soft=True)
+    objs = c14.be_objects(wdir, gdir, opt, 'x86_64-w64-windows-gnu', True, extra_jobs=[(bo, 'wrap_bo3', ['-DW_BO=w_bo3'] + NOMACRO),
+                                                                                       # the helpers as a Microsoft-flavoured compiler sees them (_MSC_VER defined, CRT intrinsics available)
+                                                                                       (bo, 'wrap_bo5', ['-DW_BO=w_bo5', '-D_MSC_VER=1930'])], soft=True)
     exe = core.link(os.path.join(b, name + '-llp64'), nobjs + objs, cc='clang')
     out = subprocess.run([exe, '--worldinfo'], stdout=subprocess.PIPE, text=True).stdout.strip()
     if not out.startswith('model=448 '):
